@@ -153,6 +153,11 @@ func RunC18(k *fw.Case) {
 					m.Text = fmt.Sprintf("CO.M(%d)", m.ID)
 				}
 			default:
+				if m.Fail && r.Intn(2) == 0 {
+					// a three-level call whose head is a LOCAL that is no struct at all: a fault like any other
+					m.Text = fmt.Sprintf("pre1.a.b(fl(%d))", m.ID)
+					break
+				}
 				m.Fail = false
 				m.Text = fmt.Sprintf("CO.In.M3(%d)", m.ID)
 			}
